@@ -218,6 +218,43 @@ class BuildDirs:
                 prev_parent = parent
                 parent = os.path.dirname(parent)
 
+    def error_making_dirs(self, dirs_to_make, made_dirs):
+        """Handle an exception creating the parent directories of a file.
+
+        The caller did not pass any of the directories to
+        ``started_building_file``.
+
+        Arguments:
+            dirs_to_make (list<str>): The non-norm-cased directories
+                that the caller set out to create, because they did not
+                exist in the virtual state of the file system.
+            made_dirs (list<str>): The elements of ``dirs_to_make`` that
+                the caller created in the real file system before the
+                exception.
+        """
+        made_dirs_set = set(made_dirs)
+        with self._lock:
+            for dir_ in dirs_to_make:
+                norm_cased_dir = os.path.normcase(dir_)
+                if norm_cased_dir in self._created_dirs_map:
+                    continue
+                elif norm_cased_dir in self._build_dir_counts:
+                    # Another thread reserved the directory in the meantime.
+                    # That thread took it for an existing directory, so
+                    # record that the build created it.
+                    self._created_dirs_map[norm_cased_dir] = dir_
+                    self._error_created_dirs.discard(norm_cased_dir)
+                    self._removed_files.discard(norm_cased_dir)
+                elif dir_ in made_dirs_set:
+                    # This is like a directory that we virtually removed in
+                    # error_building_file. If a thread reserves it later, then
+                    # started_building_file regards that thread as virtually
+                    # recreating it.
+                    self._error_created_dirs.add(norm_cased_dir)
+                    self._maybe_removed_dirs.add(norm_cased_dir)
+                    self._removed_files.discard(norm_cased_dir)
+                    self._exists_dirs.clear()
+
     def created_dirs(self):
         """Return the directories virtually created during the current build.
 
